@@ -908,3 +908,6 @@ def _short(w):
 
 def classify(c, o, failure, disagrees):
     return None
+
+# added with seeded rounds 6-7 (DESIGN 8.6)
+RULE = RULE + '; index_of_vertex additionally with atol 1e-8, 0 and 0.75, judged against the definition'
